@@ -529,6 +529,47 @@ fn adder_small_widths(seed: u64) -> serde_json::Value {
     json!({"found": false, "routine": "adder_small_widths", "tried": tried})
 }
 
+// C15: PRF / PermutationFromPRF are pure functions of (key, counter, type): repeated requests from one evaluator, fresh evaluators and
+// evaluators with other histories agree; permutations are valid; different counters differ
+fn prf_purity(seed: u64) -> serde_json::Value {
+    use ciphercore_base::evaluators::simple_evaluator::SimpleEvaluator;
+    use ciphercore_base::evaluators::Evaluator;
+    use ciphercore_base::graphs::util::simple_context;
+    let mut rng = Rng(seed | 1);
+    let mut tried = 0u64;
+    let mut key = [0u8; 16]; for b in key.iter_mut() { *b = rng.next() as u8; }
+    let r = catch_unwind(AssertUnwindSafe(|| -> Result<Option<serde_json::Value>> {
+        for (n, iv) in [(1u64, 0u64), (2, 1), (5, 7), (64, 7), (300, 3), (1000, 11), (70000, 2)] {
+            let c = simple_context(|g| { let k = g.input(array_type(vec![128], BIT))?; k.permutation_from_prf(iv, n) })?;
+            let c2 = simple_context(|g| { let k = g.input(array_type(vec![128], BIT))?; k.permutation_from_prf(iv + 1, n) })?;
+            let ev = |e: &mut SimpleEvaluator, c: &ciphercore_base::graphs::Context| -> Result<Vec<u64>> { e.preprocess(c)?; e.evaluate_context(c.clone(), vec![Value::from_bytes(key.to_vec())])?.to_flattened_array_u64(array_type(vec![n], UINT64)) };
+            let mut e1 = SimpleEvaluator::new(None)?;
+            let a = ev(&mut e1, &c)?; let b = ev(&mut e1, &c)?; let _o = ev(&mut e1, &c2)?; let d = ev(&mut e1, &c)?;
+            let mut e2 = SimpleEvaluator::new(None)?; let _o2 = ev(&mut e2, &c2)?; let f = ev(&mut e2, &c)?;
+            tried += 4;
+            let mut sorted = a.clone(); sorted.sort_unstable();
+            if sorted != (0..n).collect::<Vec<u64>>() { return Ok(Some(json!({"found": true, "routine": "prf_purity", "property": "C15", "input": {"op": "PermutationFromPRF", "n": n, "counter": iv}, "observed": "not a permutation of 0..n"}))); }
+            if a != b || a != d || a != f {
+                return Ok(Some(json!({"found": true, "routine": "prf_purity", "property": "C15", "input": {"op": "PermutationFromPRF", "n": n, "counter": iv, "key": key.to_vec()},
+                    "observed": {"first": a.iter().take(8).collect::<Vec<_>>(), "repeated": b.iter().take(8).collect::<Vec<_>>(), "after_other_counter": d.iter().take(8).collect::<Vec<_>>(), "other_evaluator": f.iter().take(8).collect::<Vec<_>>()},
+                    "what": "the same (key, counter, n) requested again from the same / another SimpleEvaluator gives a different permutation"})));
+            }
+        }
+        for t in [scalar_type(UINT64), array_type(vec![5], BIT), array_type(vec![3, 2], INT32), tuple_type(vec![scalar_type(UINT8), array_type(vec![2], UINT128)])] {
+            let c = simple_context(|g| { let k = g.input(array_type(vec![128], BIT))?; k.prf(5, t.clone()) })?;
+            let ev = |e: &mut SimpleEvaluator| -> Result<Value> { e.preprocess(&c)?; e.evaluate_context(c.clone(), vec![Value::from_bytes(key.to_vec())]) };
+            let mut e1 = SimpleEvaluator::new(None)?; let a = ev(&mut e1)?; let b = ev(&mut e1)?;
+            let mut e2 = SimpleEvaluator::new(Some([7u8; 16]))?; let d = ev(&mut e2)?;
+            tried += 3;
+            if a != b || a != d { return Ok(Some(json!({"found": true, "routine": "prf_purity", "property": "C15", "input": {"op": "PRF", "type": format!("{}", t), "counter": 5}, "what": "PRF output differs between repeated / separate evaluations"}))); }
+            if !a.check_type(t.clone())? { return Ok(Some(json!({"found": true, "routine": "prf_purity", "property": "C15", "input": {"op": "PRF", "type": format!("{}", t)}, "what": "PRF output is not a value of the requested type"}))); }
+        }
+        Ok(None)
+    }));
+    match r { Ok(Ok(Some(v))) => v, Ok(Ok(None)) => json!({"found": false, "routine": "prf_purity", "tried": tried}),
+        Ok(Err(e)) => json!({"found": false, "routine": "prf_purity", "error": e.to_string()}), Err(_) => json!({"found": true, "routine": "prf_purity", "property": "C15", "observed": "panic"}) }
+}
+
 // C14: per-party shares reconstruct the secret, for scalars, arrays (incl. bits and 128-bit) and nested containers
 fn share_roundtrip(seed: u64) -> serde_json::Value {
     use ciphercore_base::random::PRNG;
@@ -548,6 +589,9 @@ fn share_roundtrip(seed: u64) -> serde_json::Value {
                 let parties = tv.get_local_shares_for_each_party(&mut PRNG::new(Some(sd)).unwrap()).map_err(|e| e.to_string())?;
                 let k: Vec<Vec<Value>> = parties.iter().map(|p| p.value.to_vector().unwrap()).collect();
                 if k[0][0] != k[2][0] || k[0][1] != k[1][1] || k[1][2] != k[2][2] { return Ok(false); }
+                // the third slot of party p (index p+2) must not be the real share with that index (a coincidence has probability 2^-64 or less for the types checked)
+                let wide = matches!(&t, Type::Scalar(st) | Type::Array(_, st) if st.size_in_bits() >= 64) || matches!(&t, Type::Vector(_, _) | Type::NamedTuple(_));
+                if wide && (k[0][2] == k[1][2] || k[1][0] == k[0][0] || k[2][1] == k[0][1]) { return Err("a party's third slot holds the real share it must not know".to_owned()); }
                 let shares = TypedValue::new(tuple_type(vec![t.clone(), t.clone(), t.clone()]), Value::from_vector(vec![k[0][0].clone(), k[0][1].clone(), k[1][2].clone()])).map_err(|e| e.to_string())?;
                 let back = shares.secret_share_reveal().map_err(|e| e.to_string())?;
                 Ok(back.value == v)
@@ -577,6 +621,7 @@ fn main() {
         Some("arith_kernels") => arith_kernels(seed),
         Some("cmp_small_widths") => cmp_small_widths(seed),
         Some("share_roundtrip") => share_roundtrip(seed),
+        Some("prf_purity") => prf_purity(seed),
         Some("adder_small_widths") => adder_small_widths(seed),
         Some("party_sim_c01") => party_sim::run(seed, "C01"),
         Some("party_sim_c02") => party_sim::run(seed, "C02"),
